@@ -6,6 +6,7 @@
 #include <atomic>
 #include <functional>
 #include <memory>
+#include <ostream>
 #include <stdexcept>
 #include <string>
 #include <utility>
@@ -27,6 +28,12 @@ struct Tracked {
   ~Tracked() { --live; }
   static std::atomic<long> copies, moves, live;
 };
+// elements of a container argument: comparable with the operands of the range matchers and printed as their value
+inline bool operator==(const Tracked& a, int b) { return a.v == b; }
+inline bool operator==(int a, const Tracked& b) { return a == b.v; }
+inline bool operator!=(const Tracked& a, int b) { return a.v != b; }
+inline bool operator>=(const Tracked& a, int b) { return a.v >= b; }
+inline std::ostream& operator<<(std::ostream& os, const Tracked& t) { return os << t.v; }
 
 template <bool Movable>
 struct MockT {
@@ -43,7 +50,7 @@ struct MockT {
   MAKE_MOCK1(s, std::string(std::string&));
   MAKE_CONST_MOCK1(k, const int&(const int&));
   MAKE_MOCK0(z, void());
-  MAKE_MOCK1(v, void(const std::vector<int>&));
+  MAKE_MOCK1(v, void(const std::vector<Tracked>&));
   MAKE_MOCK1(p, (std::pair<int, int>(int)));
 };
 
@@ -102,7 +109,7 @@ int thr_int(int id, int snap);
 inline int val(int x) { return x; }
 inline int val(const std::unique_ptr<Tracked>& p) { return p ? p->v : -1; }
 int val(const std::string& s);
-inline int val(const std::vector<int>& v) { return v.empty() ? -1 : v.front(); }
+inline int val(const std::vector<Tracked>& v) { return v.empty() ? -1 : v.front().v; }
 inline int val(trompeloeil::illegal_argument const&) { return 0; }
 
 // a plain clause uses its captured copy of a local in a non-const way (std::move(local)): the copy is const inside the
